@@ -54,6 +54,16 @@ fn blob(rng: &mut Rng, max: usize) -> Vec<u8> {
 
 const EXT_TYPES: &[u16] = &[0, 1, 5, 10, 11, 13, 15, 16, 18, 21, 22, 23, 28, 35, 40, 41, 42, 43, 44, 45, 48, 49, 51, 13172, 0xff01, 0xffce];
 
+/// number of entries of an inner list: small most of the time, sometimes around and beyond the
+/// small fixed bounds an implementation might be tempted to use (16, 32, 64, 255)
+fn list_len(rng: &mut Rng, small: usize) -> usize {
+    match rng.below(12) {
+        0 => *rng.pick(&[15usize, 16, 17, 31, 32, 33, 63, 64, 65, 127, 128, 129, 255, 256, 300]),
+        1 => rng.urange(17, 90),
+        _ => rng.small_len(small),
+    }
+}
+
 pub fn extension_content(rng: &mut Rng, t: u16) -> Vec<u8> {
     let mut v = Vec::new();
     match t {
@@ -62,7 +72,7 @@ pub fn extension_content(rng: &mut Rng, t: u16) -> Vec<u8> {
                 return v;
             }
             let mut l = Vec::new();
-            for _ in 0..rng.small_len(4) {
+            for _ in 0..list_len(rng, 4) {
                 l.push(if rng.chance(3, 4) { 0 } else { rng.u8() });
                 let max = if rng.chance(1, 6) { 900 } else { 40 };
                 let mut name = blob(rng, max);
@@ -85,13 +95,13 @@ pub fn extension_content(rng: &mut Rng, t: u16) -> Vec<u8> {
             }
         }
         10 | 13 => {
-            let n = rng.small_len(12);
+            let n = list_len(rng, 12);
             vec16(&mut v, &rng.bytes(n * 2));
         }
         11 | 45 | 0xff01 => vec8(&mut v, &blob(rng, 40)),
         16 => {
             let mut l = Vec::new();
-            for _ in 0..rng.small_len(4) {
+            for _ in 0..list_len(rng, 4) {
                 let max = if rng.chance(1, 6) { 255 } else { 20 };
                 vec8(&mut l, &blob(rng, max));
             }
@@ -113,13 +123,13 @@ pub fn extension_content(rng: &mut Rng, t: u16) -> Vec<u8> {
             if rng.chance(1, 3) {
                 put_u16(&mut v, rng.u16() as u64);
             } else {
-                let n = rng.small_len(6);
+                let n = list_len(rng, 6).min(127);
                 vec8(&mut v, &rng.bytes(n * 2));
             }
         }
         48 => {
             let mut l = Vec::new();
-            for _ in 0..rng.small_len(3) {
+            for _ in 0..list_len(rng, 3) {
                 vec8(&mut l, &blob(rng, 12));
                 vec16(&mut l, &blob(rng, 20));
             }
@@ -146,16 +156,62 @@ pub fn extension(rng: &mut Rng) -> Vec<u8> {
         }
         _ => *rng.pick(EXT_TYPES),
     };
-    let content = if rng.chance(1, 6) { blob(rng, 30) } else { extension_content(rng, t) };
+    // (some single-purpose parsers accept a neighbouring tag: give those tags the content they expect too)
+    let ct = match t {
+        10 if rng.chance(1, 4) => 11,
+        13 if rng.chance(1, 4) => 15,
+        40 if rng.chance(1, 2) => 41,
+        _ => t,
+    };
+    let content = if rng.chance(1, 6) { blob(rng, 30) } else { extension_content(rng, ct) };
     let mut v = Vec::new();
     put_u16(&mut v, t as u64);
     vec16(&mut v, &content);
     v
 }
 
+/// a raw extension list (no outer length): what the *_extensions list parsers are given. Often more
+/// extensions than any small fixed bound (a real ClientHello carries 10-20)
+pub fn extension_list(rng: &mut Rng) -> Vec<u8> {
+    let n = match rng.below(6) {
+        0 => *rng.pick(&[15usize, 16, 17, 18, 31, 32, 33, 64, 65]),
+        1 => rng.urange(17, 70),
+        2 => 0,
+        _ => rng.urange(1, 12),
+    };
+    let distinct = rng.chance(1, 2);
+    let mut v = Vec::new();
+    for i in 0..n {
+        let mut e = extension(rng);
+        if distinct && e.len() >= 2 && rng.chance(2, 3) {
+            // distinct, mostly unknown types (duplicates are a case of their own)
+            let t = 0x4000u16 + i as u16;
+            e[0] = (t >> 8) as u8;
+            e[1] = t as u8;
+        }
+        v.extend(e);
+    }
+    v
+}
+
+/// the content of one extension alone (what the *_content parsers are given)
+pub fn extension_content_only(rng: &mut Rng) -> Vec<u8> {
+    let t = *rng.pick(EXT_TYPES);
+    extension_content(rng, t)
+}
+
+/// a hello whose extension block is a long list
+pub fn hello_with_many_extensions(rng: &mut Rng) -> Vec<u8> {
+    let kind = *rng.pick(&["client_hello", "server_hello", "server_hello_d18", "hello_retry_request"]);
+    let mut m = gen::handshake(rng, kind, 100);
+    m.set("ext", crate::item::Val::Bytes(extension_list(rng)));
+    enc::tls_message(&m)
+}
+
 pub fn dsig(rng: &mut Rng) -> Vec<u8> {
     let mut v = vec![rng.u8(), rng.u8()];
-    vec16(&mut v, &blob(rng, 80));
+    let max = if rng.chance(1, 8) { *rng.pick(&[255usize, 256, 512, 1024]) } else { 80 };
+    vec16(&mut v, &blob(rng, max));
     v
 }
 
@@ -178,7 +234,7 @@ pub fn sct_entry(rng: &mut Rng) -> Vec<u8> {
 
 pub fn sct_list(rng: &mut Rng) -> Vec<u8> {
     let mut l = Vec::new();
-    for _ in 0..rng.small_len(4) {
+    for _ in 0..list_len(rng, 4).min(300) {
         l.extend(sct_entry(rng));
     }
     let mut v = Vec::new();
@@ -188,8 +244,13 @@ pub fn sct_list(rng: &mut Rng) -> Vec<u8> {
 
 pub fn dh_params(rng: &mut Rng) -> Vec<u8> {
     let mut v = Vec::new();
+    let max = if rng.chance(1, 8) { *rng.pick(&[256usize, 257, 512, 1024, 2048]) } else { 130 };
     for _ in 0..3 {
-        vec16(&mut v, &blob(rng, 130));
+        if max > 130 && rng.chance(1, 2) {
+            vec16(&mut v, &rng.bytes(max));
+        } else {
+            vec16(&mut v, &blob(rng, max));
+        }
     }
     v
 }
@@ -320,9 +381,15 @@ pub fn structure(rng: &mut Rng, kind: &str) -> Vec<u8> {
         "ecdh" => ecdh_params(rng),
         "ec" => ec_params(rng),
         "dsig" => dsig(rng),
+        "ext_list" => extension_list(rng),
+        "ext_content" => extension_content_only(rng),
+        "hello_many_ext" => hello_with_many_extensions(rng),
         _ => dsig_old(rng),
     }
 }
+
+/// structure kinds only the confused monitor (C01) is given: inputs of the list / content parsers
+pub const CONFUSED_ONLY: &[&str] = &["ext_list", "ext_content", "hello_many_ext"];
 
 /// declared extent of a structure as a reference framer reads it from the first bytes
 /// (None when it cannot be determined from a fixed-position length field)
